@@ -117,6 +117,22 @@ def estimate_all(chk, qt, data, tag, expect_var=None, expect_tol=None, case=None
                     chk.violation("unphysical:%s:%s" % (name, tag.split("|")[0]), "estimate is not physical to stopping accuracy [%s]" % tag, case)
             except Exception as e:
                 chk.violation("exception:%s:%s" % (name, tag.split("|")[0]), "%r [%s]" % (e, tag), case)
+    # a small optimisation budget limits the gradient steps, not the physical projection inside them: the estimate of a run cut
+    # short after a few steps is still physical (the two iteration limits are separate options)
+    for an, (A, O) in algos().items():
+        name = "%s:se:budget4" % an
+        if which is not None and "%s:se" % an not in which:
+            continue
+        try:
+            L, P = losses()["se"]
+            opt = O(on_algo_eq_constraint=True, on_algo_ineq_constraint=True, eps=1e-10, max_iteration_optimization=4,
+                    mode_stopping_criterion_gradient_descent="sum_absolute_difference_variable")
+            (res, txt) = quiet(LossMinimizationEstimator().calc_estimate, qt, [(n, f.copy()) for n, f in data], L(), P("identity"), A(), opt)
+            chk.count(1, (tag, name))
+            if not physical_to(res.estimated_qoperation, 1e-5):
+                chk.violation("unphysical:%s:%s" % (name, tag.split("|")[0]), "estimate of a run limited to 4 gradient steps is not physical [%s]" % tag, case)
+        except Exception as e:
+            chk.violation("exception:%s:%s" % (name, tag.split("|")[0]), "%r [%s]" % (e, tag), case)
     if expect_var is not None:
         for name, v in out.items():
             exact_for = name.startswith("proj_linear") or (strict_se and name == "pgdb:se")
